@@ -1682,6 +1682,28 @@ func (ex *Exec) initGlobal(g *ssa.Global, c *Cell) {
 	if initFn == nil || initFn.Blocks == nil {
 		return
 	}
+	// flag.XxxVar(&g, name, default, usage) in an init function sets the default value of g
+	for name, m := range pkg.Members {
+		f, ok := m.(*ssa.Function)
+		if !ok || !strings.HasPrefix(name, "init#") || f.Blocks == nil {
+			continue
+		}
+		for _, b := range f.Blocks {
+			for _, in := range b.Instrs {
+				call, ok := in.(*ssa.Call)
+				if !ok || len(call.Call.Args) < 3 || call.Call.Args[0] != ssa.Value(g) {
+					continue
+				}
+				callee := call.Call.StaticCallee()
+				if callee == nil || callee.Pkg == nil || callee.Pkg.Pkg.Path() != "flag" || !strings.HasSuffix(callee.Name(), "Var") {
+					continue
+				}
+				if cst, ok := call.Call.Args[2].(*ssa.Const); ok {
+					ex.store(c, ex.constValue(cst))
+				}
+			}
+		}
+	}
 	slice := ex.eng.initSlice(initFn, g)
 	if len(slice) == 0 {
 		return
